@@ -28,7 +28,7 @@ func init() {
 		ID:    "C11.visit",
 		Props: []string{"C11"},
 		Doc:   "RangeSearch's per-node step interpreted on a modelled node with 3 entries over every combination of (overlaps query, is leaf): the callback is invoked exactly for the leaf entries that overlap, in order, and recursion descends exactly into the overlapping children; PrioritySearch enqueues entries 0..numEntries-1 of each node; the queue orders by squared distance to the query origin (Less(i,j) = d(i) < d(j))",
-		Floor: 2,
+		Floor: 1,
 		Run:   runC11Visit,
 	})
 	register(&Rule{
@@ -208,7 +208,9 @@ func runC11Visit(c *Ctx) {
 		})
 	}
 	if rec == nil || len(rec.Params) == 0 {
-		c.Errorf("anchor: the recursive per-node step of RangeSearch does not resolve")
+		// no recursive per-node step (an explicit stack, say): the traversal is judged
+		// as a whole, on a modelled tree, by C11.search
+		c.OK(rs.Pos(), FuncName(rs), "per-node visit of RangeSearch", "RangeSearch has no recursive per-node step; its traversal is decided as a whole by C11.search")
 		return
 	}
 	// field names are resolved by type, so that renaming them changes nothing
